@@ -15,7 +15,7 @@ PROP = {
                    "Find, GetBounds (and IsSorted on every array, arranged or not) return exactly the linear-scan answer; pvMultShift(h,n) "
                    "< n. Every array access of the model is checked and every theorem concludes `= some ...`, i.e. no access leaves the "
                    "sequence, no size_t subtraction wraps, no MOMO_ASSERT fails, every loop terminates. The model is executable and is "
-                   "compared cell by cell with the real code on every run (exact arrangement after Sort through item ids, exact indices "
+                   "compared cell by cell with the real code on every run (exact arrangement after Sort through item ids, the exact sequence of iterSwapper calls through a logging swapper, exact indices "
                    "returned by Find/GetBounds, pvMultShift/pvGetStepCount at function level); thresholds and radix constants are "
                    "re-extracted from the headers."),
     "level_note": ("Trusted: Lean kernel, the three standard axioms, extractor, correspondence harness (g++, -fno-access-control, ASan/UBSan). "
@@ -53,8 +53,8 @@ PROP = {
              "0 / 2^64-1, extreme with a middle value, injective spread over the 64-bit range, injective near 0, injective near 2^64-1) + 2 "
              "(thorough 12) random tables, plain and prehashed, raw pointers and vector iterators alternating: IsSorted on the raw sequence; "
              "Find+GetBounds for 6 query keys (3 alphabet keys, one absent key whose hash collides with a present one, one hashing below all, "
-             "one above all) on the raw sequence when it happens to be arranged and on the sorted one; Sort with the arrangement (ids) and the "
-             "hash array compared cell by cell. rand: 60 (thorough 260) LCG sequences of length 0..30 000 (thorough 120 000, one of 2^22+5 to "
+             "one above all) on the raw sequence when it happens to be arranged and on the sorted one; Sort with the arrangement (ids), the hash array and the swap log (number of iterSwapper calls + order-sensitive checksum of "
+             "their index pairs) compared with the model. rand: 60 (thorough 260) LCG sequences of length 0..30 000 (thorough 120 000, one of 2^22+5 to "
              "reach pvGetStepCount = 3) over 10 hash families (constant, 2/3/4/256-valued, multiplicative, identity, high-byte, 4-key "
              "collisions, mid-range) optionally overlaid with a table holding 0 and 2^64-1, key ranges from 1 to 10n, 30 (60) queries each. "
              "c17_radix_a..d: RadixSorter<1..16> x {uint8,uint16,uint32,uint64,const char*}: 12+ sizes around selectionSortMaxCount x 7 code "
